@@ -60,10 +60,15 @@ theorem C05_gen_all_locked :
     ∃ t, Generated.C05.transmitFns = some t ∧ t ≠ [] ∧ ∀ p ∈ t, protectedClass p.2 = true := by
   refine ⟨_, rfl, by decide, by decide⟩
 
-/-- the encoder's state can only change in `EncodeToken` (a `Flush` of its own, or any other
-method, could move the depth counter behind the model's back: `C05_flush_transparent` rests
-on this) -/
-theorem C05_gen_encoder_methods : Generated.C05.stanzaEncoderMethods = some ["EncodeToken"] := by decide
+/-- the encoder's state can only change in `EncodeToken`: it is the only method of the encoder's
+type that assigns to one of its fields (a `Flush` of its own that resets the depth would move
+the counter behind the model's back: `C05_flush_transparent` rests on this; methods that only
+read do not matter), and outside the type only stream negotiation (which builds the encoder)
+writes to such a field -/
+theorem C05_gen_encoder_methods :
+    Generated.C05.stanzaEncoderMethods = some ["EncodeToken"] ∧
+    ∃ o, Generated.C05.stanzaEncoderOutsideWriters = some o ∧ ∀ f ∈ o, f ∈ setupFns := by
+  refine ⟨by decide, _, rfl, by decide⟩
 
 /-- every one-shot transmit entry point refuses to write when the previous write was abandoned
 inside an element (hypothesis `guard = true` of the fault theorems), and it finds that out
